@@ -100,6 +100,11 @@ def handler : Handler := fun op j =>
       | none => some (err "index")
       | some z => some (ok (cvalJson z))
     | .cplx _ => none
+  | "scalar" => do         -- what `minimize_scalar`'s wrapper returns for a result `y` of `func`
+    let y ← arrOfJson? (← field? j "y")
+    match scalarOf y with
+    | none => some (err (if y.shape.head? == some 0 then "index" else "shape"))  -- `y[0]` / `.item()` raise
+    | some a => some (ok (jF a))
   | "routing" => do
     let m ← fStr? j "method"
     some (ok (jB (usesGrad String.toLower m)))
